@@ -27,8 +27,9 @@ type c12Case struct {
 	Catalogue  int          `json:"catalogue"` // -1 none, else faults.BundleKind
 	Obligatory []string     `json:"obligatory,omitempty"`
 	Faults     []writeFault `json:"faults"`
-	API        string       `json:"api,omitempty"`   // "" = Renderer.Execute with $ij and catalogue, "render" = Tofu.Render
-	Shape      string       `json:"shape,omitempty"` // optional interfaces of the writer: "" | flush-nil | flush-err | stringwriter
+	API        string       `json:"api,omitempty"`      // "" = Renderer.Execute with $ij and catalogue, "render" = Tofu.Render
+	Shape      string       `json:"shape,omitempty"`    // optional interfaces of the writer: "" | flush-nil | flush-err | stringwriter
+	ErrKind    int          `json:"err_kind,omitempty"` // which error value the writer fails with (faults.WriteErrors)
 }
 
 func collectTexts(n ast.Node, set map[string]bool) {
@@ -87,6 +88,7 @@ func catalogue(cc *sut.Compiled, kind int) soymsg.Bundle {
 // c12Run executes one faulted render and applies the oracle.  ref is the fault-free run.
 func c12Run(cc *sut.Compiled, cs *c12Case, f writeFault, ref *faults.Writer, refErr error, kinds []string) (*wk.Failure, *faults.Writer, string) {
 	w := faults.NewWriter()
+	w.ErrKind = cs.ErrKind
 	switch f.Mode {
 	case "sticky":
 		w.FailCall, w.Sticky = f.K, true
@@ -238,6 +240,11 @@ func C12(c *wk.Ctx) {
 				cs.API, cs.Catalogue = "render", -1
 			}
 			cs.Shape = []string{"", "", "flush-nil", "flush-err", "stringwriter", "bufferlike"}[r.Intn(6)]
+			if r.Intn(2) == 0 {
+				// the error value is part of the swarm: a closed pipe, a reset connection, a full disk, ...
+				cs.ErrKind = 1 + r.Intn(len(faults.WriteErrors)-1)
+				u.Counters["cases_with_a_system_error_value"]++
+			}
 			u.Counters["api_"+map[string]string{"": "execute", "render": "render"}[cs.API]]++
 			u.Counters["writer_shape_"+map[string]string{"": "plain"}[cs.Shape]+cs.Shape]++
 			if r.Intn(4) == 0 {
